@@ -23,12 +23,12 @@ REPO = os.environ.get("VERIF_REPO", "/repo")
 PROPS = {
     "C01": (["geometry", "lemmas"], "c01"),
     "C02": (["colslice", "rowsel", "indices", "derived", "dispatch", "lemmas"], "c02"),
-    "C03": (["colslice", "rowsel", "assign", "indices", "derived", "dispatch", "lemmas"], "c03"),
-    "C04": (["ufunc", "lemmas"], "c04"),
+    "C03": (["colslice", "rowsel", "assign", "indices", "derived", "dispatch", "broadcast", "lemmas"], "c03"),
+    "C04": (["ufunc", "broadcast", "lemmas"], "c04"),
     "C05": (["reduce", "lemmas"], "c05"),
     "C06": (["colslice", "rowsel", "indices", "derived", "dispatch", "frames", "lemmas"], "c06"),
     "C07": (["scans", "lemmas"], "c07"),
-    "C08": (["structural", "geometry", "derived", "lemmas"], "c08"),
+    "C08": (["structural", "geometry", "derived", "broadcast", "lemmas"], "c08"),
     "C09": (["columns", "lemmas"], "c09"),
     "C10": (["frames", "assign", "ufunc", "derived"], "c10"),
     "C11": (["hashtable"], "c11"),
